@@ -509,7 +509,7 @@ func parseLockTx(a []int) (int, *lockTxSpec, bool) {
 	return id, spec, true
 }
 
-func errClass(err error) string {
+func lockErrClass(err error) string {
 	if err == nil {
 		return "ok"
 	}
@@ -540,7 +540,7 @@ func runLockCall(fn func() error) string {
 			if err != nil && i < 200 && strings.Contains(err.Error(), "Transaction Conflict") {
 				continue
 			}
-			return errClass(err)
+			return lockErrClass(err)
 		}
 	})
 	return out
@@ -932,7 +932,7 @@ func (w *lockWorld) execVout(f []string) Result {
 	hash := w.txHash(txid)
 	pre := w.last
 	res, _, _ := Catch(func() string {
-		return errClass(tx.VerifValidateOutputs(w.store, hash, common.NewInteger(uint64(inAmt)), fork))
+		return lockErrClass(tx.VerifValidateOutputs(w.store, hash, common.NewInteger(uint64(inAmt)), fork))
 	})
 	post, _ := w.dump()
 	w.last = post
@@ -1189,13 +1189,6 @@ func (t *genTx) line() string {
 		a = append(a, ks...)
 	}
 	return "deftx " + fmtInts(a...)
-}
-
-func b2i(b bool) int {
-	if b {
-		return 1
-	}
-	return 0
 }
 
 func (t *genTx) lockInputsLine(fork bool) string {
